@@ -62,6 +62,28 @@ def gen_rearrange_core(rng, n):
     return out
 
 
+def gen_broadcast_core(rng, n):
+    """rearrangements of one tensor into an output that lists every input axis and one or two new ones (sizes by keyword),
+    anywhere in the nesting: the sub-family for which Model/Lower.v models alignment + broadcast_to + reshape
+    (Proofs/BroadcastFull.v: output-only axes repeat the value)"""
+    out = []
+    g = gencalls.G(rng)
+    while len(out) < n:
+        axes = g.pick_axes(rng.randint(2, 5), sizes=[2, 3, 4, 5], maxprod=3000)
+        if any(a.size == 1 for a in axes):
+            continue
+        k = rng.randint(1, min(2, len(axes) - 1))
+        old = axes[k:]
+        din = g.arrange(g.perm(old), units=0.0, flat=0.45)
+        dout = g.arrange(g.perm(axes), units=0.0, flat=0.45)
+        if any(isinstance(d, gencalls.Fl) and not d.leaves() for d in din + dout):
+            continue
+        c = gencalls.Call("id", "id", [din], [dout], [gencalls.int_data(rng, gencalls.shape_of(din))])
+        c.describe(rng)
+        out.append(c)
+    return out
+
+
 def _capture_graph_numpylike(c):
     return _capture_graph(c, "numpy.numpylike")
 
@@ -239,6 +261,28 @@ def run_lowering(ctx):
         else:
             ctx.tie_breaks.append({"correspondence": "Model/Lower.v: the graph einx built for this rearrangement is not equivalent to the model's "
                                                      "reshape-transpose-reshape term (verdict: in_scope, equivalent, wf_model, wf_graph, sizes)",
+                                   "call": c.record(), "verdict": r})
+        ctx.distinct.add("lower|" + c.desc)
+    # rearrangements with new output axes: aligned input, broadcast_to, reshape
+    bcases = gen_broadcast_core(ctx.rng, 150 if ctx.tier == "quick" else 5000)
+    bcaps = common.pmap(_capture_graph, bcases)
+    lines, owners = [], []
+    stats.update({"new_axis_rearrangements": len(bcases), "new_axis_graph_equals_model": 0})
+    for c, cap in zip(bcases, bcaps):
+        if cap[0] == "term":
+            names = gencalls.Names()
+            lines.append(sx(["lower_broadcast", [gencalls.w_dims(c.ins[0], names), gencalls.w_dims(c.outs[0], names), cap[1]]]))
+            owners.append(c)
+        elif cap[0] == "nograph" and cap[1] == 0:
+            stats["served_from_cache_no_trace"] = stats.get("served_from_cache_no_trace", 0) + 1
+        else:
+            ctx.tie_breaks.append({"correspondence": "lowering model vs traced graph: graph not captured as a term", "call": c.record(), "detail": str(cap[:2])})
+    for c, r in zip(owners, ctx.model.batch(lines)):
+        if isinstance(r, list) and r[0] == "lower" and r[1:5] == ["T", "T", "T", "T"]:
+            stats["new_axis_graph_equals_model"] += 1
+        else:
+            ctx.tie_breaks.append({"correspondence": "Model/Lower.v: the graph einx built for this rearrangement with new output axes is not equivalent to the "
+                                                     "model's term (aligned input, broadcast_to, reshape; verdict: in_scope, equivalent, wf_model, wf_graph, sizes)",
                                    "call": c.record(), "verdict": r})
         ctx.distinct.add("lower|" + c.desc)
     # element-wise calls: the whole traced graph against aligned inputs + broadcasting operation + final reshape
